@@ -209,6 +209,9 @@ func (instr *InstrActions) UnmarshalBinary(data []byte) error {
 			return err
 		}
 		instr.Actions = append(instr.Actions, act)
+		if act.Len() == 0 {
+			return errors.New("The instruction contains an action of length 0.")
+		}
 		n += int(act.Len())
 	}
 
